@@ -56,7 +56,7 @@ var pureStdlib = map[string]string{
 	"html.EscapeString": "", "html.UnescapeString": "", "utf8.RuneCountInString": "0 <= result <= len(s)", "utf8.ValidString": "",
 	"math.Ceil": "", "math.Floor": "", "math.Round": "", "math.Abs": "", "math.Pow": "",
 	"rand.Intn": "requires n > 0; 0 <= result < n", "rand.Seed": "", "rand.Shuffle": "", "rand.New": "fresh generator, no effect on the program heap", "rand.NewSource": "fresh source",
-	"time.Now": "", "time.Time.UnixNano": "", "os.ReadFile": "fresh []byte or error", "filepath.Abs": "", "filepath.Clean": "", "filepath.Join": "", "errors.Is": "",
+	"time.Now": "", "time.Time.UnixNano": "", "os.ReadFile": "fresh []byte or error", "filepath.Abs": "", "filepath.Clean": "", "filepath.ToSlash": "", "filepath.Join": "", "errors.Is": "",
 	"reflect.TypeOf": "", "reflect.ValueOf": "", "reflect.DeepEqual": "",
 	"unicode.ToUpper": "", "unicode.IsSpace": "", "unicode.IsUpper": "", "unicode.ToLower": "",
 }
@@ -344,7 +344,7 @@ var deterministicStdlib = map[string]bool{
 	"strings.TrimRight": true, "strings.TrimLeft": true, "strings.Trim": true, "strings.TrimSpace": true, "strings.HasPrefix": true, "strings.HasSuffix": true,
 	"strings.Index": true, "strings.TrimPrefix": true, "strings.TrimSuffix": true, "strings.Title": true,
 	"strconv.FormatInt": true, "strconv.Itoa": true, "strconv.FormatFloat": true, "html.EscapeString": true, "html.UnescapeString": true,
-	"filepath.Abs": false, "math.Ceil": true, "math.Floor": true, "math.Round": true, "math.Abs": true, "utf8.ValidString": true,
+	"filepath.Abs": false, "filepath.Clean": true, "filepath.ToSlash": true, "math.Ceil": true, "math.Floor": true, "math.Round": true, "math.Abs": true, "utf8.ValidString": true,
 	"unicode.ToUpper": true, "unicode.IsSpace": true, "unicode.IsUpper": true, "unicode.ToLower": true,
 }
 
